@@ -137,6 +137,19 @@ SiteCases == {Mk("C09/site/main/" \o st, h, <<F("main.tsh", <<Imp("a", "a.tsh")>
              \cup {Mk("C09/site/importedtop/" \o st, h, <<F("main.tsh", <<Imp("b", "b.tsh")>>, <<Print1(StrL("end"))>>, h),
                                                            F("b.tsh", <<Imp("x", "a.tsh")>>, SiteUse("x", st), h), F("a.tsh", <<>>, OnlyDef, h)>>)
                     : st \in Sites, h \in {"letter"}}
+\* call chains of 6 to 13 functions, within one imported file and across four files: a function at the far end of the chain is still used
+ChainFn(i, n, nextCall) == Func(IF i = 1 THEN "Run" ELSE "step" \o ToString(i), <<Param("x", "int")>>, <<"int">>,
+                                <<RetS(<<IF i = n THEN nextCall ELSE Bin("+", CallE("step" \o ToString(i + 1), <<Var("x")>>), I(1))>>)>>)
+RECURSIVE ChainDefs(_, _, _)
+ChainDefs(i, n, last) == IF i < 1 THEN <<>> ELSE ChainDefs(i - 1, n, last) \o <<>>
+ChainFile(n, nextCall) == [k \in 1..n |-> ChainFn(n + 1 - k, n, nextCall)] \o <<Func("unused1", <<>>, <<"int">>, <<RetS(<<I(0)>>)>>), Func("unused2", <<>>, <<"int">>, <<RetS(<<CallE("unused1", <<>>)>>)>>)>>
+ChainDepth == {Mk("C09/chaindepth/onefile/" \o ToString(n), "letter", <<F("main.tsh", <<Imp("a", "a.tsh")>>, <<Print1(ACall("a", "Run", <<I(1)>>))>>, "letter"), F("a.tsh", <<>>, ChainFile(n, Bin("*", Var("x"), I(100))), "letter")>>)
+               : n \in {6, 8, 9, 10, 11, 13, 17}}
+              \cup {Mk("C09/chaindepth/fourfiles/" \o ToString(n), "digit",
+                       <<F("main.tsh", <<Imp("a", "a.tsh")>>, <<Print1(ACall("a", "Run", <<I(1)>>))>>, "digit"),
+                         F("a.tsh", <<Imp("x", "b.tsh")>>, ChainFile(n, ACall("x", "Run", <<Var("x")>>)), "digit"), F("b.tsh", <<Imp("x", "c.tsh")>>, ChainFile(n, ACall("x", "Run", <<Var("x")>>)), "digit"),
+                         F("c.tsh", <<Imp("x", "d.tsh")>>, ChainFile(n, ACall("x", "Run", <<Var("x")>>)), "digit"), F("d.tsh", <<>>, ChainFile(n, Bin("*", Var("x"), I(100))), "digit")>>)
+                    : n \in {2, 3, 4}}
 \* rejected programs
 NegH(h) == {Mk("C09/neg/private", h, <<F("main.tsh", <<Imp("a", "a.tsh")>>, <<Print1(ACall("a", "hidden", <<I(1)>>))>>, h), F("a.tsh", <<>>, FileBody("a", "priv", 1), h)>>),
         Mk("C09/neg/undefined", h, <<F("main.tsh", <<Imp("a", "a.tsh")>>, <<Print1(ACall("a", "Nope", <<I(1)>>))>>, h), F("a.tsh", <<>>, FileBody("a", "pub", 1), h)>>),
@@ -179,5 +192,5 @@ AliasNeg == {Mk("C09/neg/unknownalias-local/" \o nm, "letter", <<F("main.tsh", <
             \cup {Mk("C09/neg/alias-of-other-file/" \o nm, "letter", <<F("main.tsh", <<Imp("a", "a.tsh"), Imp("b", "b.tsh")>>, <<Print1(ACall("a", nm, <<I(1)>>))>>, "letter"),
                                                                         F("a.tsh", <<>>, FileBody("a", "pub", 1), "letter"), F("b.tsh", <<>>, FileBody("b", "priv", 2), "letter")>>) : nm \in {"Use", "hidden"}}
 Neg == NegH("digit") \cup LibNeg \cup AliasNeg
-ASSUME ndJsonSerialize("fam.ndjson", SetToSeq(S1 \cup S2 \cup S3 \cup S4 \cup S4b \cup S5 \cup S6 \cup S7 \cup S8 \cup AllGraphs \cup SiteCases \cup Neg))
+ASSUME ndJsonSerialize("fam.ndjson", SetToSeq(S1 \cup S2 \cup S3 \cup S4 \cup S4b \cup S5 \cup S6 \cup S7 \cup S8 \cup AllGraphs \cup SiteCases \cup ChainDepth \cup Neg))
 =============================================================================
